@@ -70,7 +70,7 @@ func DrawDirSpec(t *tape.Tape, o DirOpts) DirSpec {
 	}
 	s.Mined = t.Intn(6)
 	s.MineBit = 6 + t.Intn(15) // 6..20 bits of shared prefix
-	s.Style = t.Intn(4)
+	s.Style = t.Intn(5)
 	s.Seed = t.Raw()
 	for t.Pos() < start+8 {
 		t.Skip(1)
@@ -99,6 +99,12 @@ func Names(s DirSpec) []string {
 			return fmt.Sprintf("%02X%d", byte(r.Next()), i) // hex-looking prefixes
 		case 2:
 			return fmt.Sprintf("n %d é☃", i) // spaces and unicode
+		case 4: // very short names: one character, then two
+			const al = "abcdefghijklmnopqrstuvwxyz0123456789ABCDEF"
+			if i < len(al) {
+				return al[i : i+1]
+			}
+			return al[(i/len(al))%len(al):(i/len(al))%len(al)+1] + al[i%len(al):i%len(al)+1] + fmt.Sprint(i/(len(al)*len(al)))[0:0]
 		default:
 			return fmt.Sprintf("%x", r.Next()>>uint(r.Next()%40))
 		}
